@@ -334,7 +334,9 @@ pub fn slow_outcome(c: &SlowCase) -> Outcome {
 pub struct ComebackCase {
     pub xpub: bool,
     /// state of the old connection when the new one joins: 0 = open and idle, 1 = stalled (its
-    /// write window is closed and messages are queued for it), 2 = its writes fail
+    /// write window is closed and messages are queued for it), 2 = its writes fail, 3 = it has
+    /// just closed (end-of-stream delivered before the new one joins), 4 = it closes right
+    /// after the new one has joined
     pub old_state: u8,
     pub others: usize,
     pub before: usize,
@@ -385,6 +387,7 @@ pub fn comeback_outcome(c: &ComebackCase) -> Outcome {
                 2 => old.from_lib.break_writer(std::io::ErrorKind::ConnectionReset),
                 _ => {}
             }
+            let eof_before = c.old_state == 3;
             let mut published: Vec<Frames> = vec![];
             let mut publish = |sim: &mut Sim, f: &mut Vec<Failure>, published: &mut Vec<Frames>| {
                 let m = message(published.len(), 40);
@@ -399,6 +402,9 @@ pub fn comeback_outcome(c: &ComebackCase) -> Outcome {
                     return f;
                 }
             }
+            if eof_before {
+                old.to_lib.end_after_all(crate::pipe::ReadEnd::Eof);
+            }
             // the subscriber comes back on a fresh, healthy connection
             let fresh = match simx::attach_raw(&mut sim, s, Some(b"sub-A")).await {
                 Ok((l, _)) => l,
@@ -408,6 +414,9 @@ pub fn comeback_outcome(c: &ComebackCase) -> Outcome {
                 }
             };
             subscribe(&fresh);
+            if c.old_state == 4 {
+                old.to_lib.end_after_all(crate::pipe::ReadEnd::Eof);
+            }
             let _ = sim.settle().await;
             if c.xpub {
                 let _ = simx::recv_until_pending(&mut sim, s, 16).await;
@@ -427,7 +436,7 @@ pub fn comeback_outcome(c: &ComebackCase) -> Outcome {
                     f,
                     format!("C12/{}/fresh-connection-of-a-returning-subscriber-misses-messages", who),
                     "a subscriber came back under its identity on a connection that accepts every write (old connection: {}); it received {} of the {} messages published after it subscribed",
-                    ["open and idle", "stalled", "failing"][c.old_state as usize % 3],
+                    ["open and idle", "stalled", "failing", "just closed", "closing right after"][c.old_state as usize % 5],
                     m.len(),
                     published.len() - from
                 ),
@@ -499,16 +508,24 @@ pub fn run(ctx: &Ctx) -> (Report, PropertyMeta) {
     {
         let mut cc = vec![];
         for xpub in [false, true] {
-            for old_state in 0..3u8 {
+            for old_state in 0..5u8 {
                 for others in 0..=2usize {
                     for (before, after) in [(0usize, 3usize), (3, 5), (40, 40)] {
                         cc.push(ComebackCase { xpub, old_state, others, before, after });
+                    }
+                    // which of two simultaneously ready events a task takes first is the
+                    // library's (random) choice: the close-around-the-come-back cases are
+                    // repeated in several shapes so that both orders occur
+                    if old_state >= 3 {
+                        for (before, after) in [(1usize, 1usize), (1, 2), (2, 1), (2, 2), (5, 3), (7, 4), (9, 2), (11, 6)] {
+                            cc.push(ComebackCase { xpub, old_state, others, before, after });
+                        }
                     }
                 }
             }
         }
         let r = run_cases(ctx, "comeback", &cc, comeback_outcome);
-        report.exhaustive_parts.push(format!("PUB/XPUB x a subscriber with an announced identity coming back on a fresh connection while its old one is idle / stalled / failing x 0..2 bystanders x 3 publish counts: {} cases", cc.len()));
+        report.exhaustive_parts.push(format!("PUB/XPUB x a subscriber with an announced identity coming back on a fresh connection while its old one is idle / stalled / failing / just closed / closing right after x 0..2 bystanders x 3 publish counts: {} cases", cc.len()));
         report.merge(r);
     }
     // enumerated: stall at publish 2 with every budget class, sizes around the HWM, resume later
